@@ -45,6 +45,12 @@ c("304 announcing a length it does not send, then close: clean empty body (follo
 c("KNOWN FINDING: bytes after a 304 with Content-Length are delivered as its body (pinned by not_modified_spec_h1 /cl-body)",
   "lim=1 " + R('a','g','f',"HTTP/1.1 304 Not Modified\r\ncontent-length: 4\r\n\r\n1234",'k') + " " + G('a'))
 L.append("lim=1 " + R('a','g','f',"HTTP/1.1 204 No Content\r\ncontent-length: 4\r\n\r\n12",'c') + " " + G('a'))
+c("seed C17-r3-1: Expect: 100-continue, interim 100, then a Content-Length / chunked body cut by the close => Incomplete (the bodiless flag is per response head)",
+  "lim=1 " + R('a','e','f',["HTTP/1.1 100 Continue\r\n\r\n","HTTP/1.1 200 OK\r\ncontent-length: 10\r\n\r\nabc"],'c') + " " + G('a'))
+L.append("lim=1 " + R('a','e','f',"HTTP/1.1 100 Continue\r\n\r\nHTTP/1.1 200 OK\r\ntransfer-encoding: chunked\r\n\r\n5\r\nab",'c') + " " + G('a'))
+c("Expect: complete final response after the interim 100: delivered, socket reused; final response without interim: body never sent",
+  "lim=1 " + R('a','e','f',["HTTP/1.1 100 Continue\r\n\r\n","HTTP/1.1 200 OK\r\ncontent-length: 2\r\n\r\nok"],'k') + " " + G('a'))
+L.append("lim=1 " + R('a','e','f',"HTTP/1.1 200 OK\r\ncontent-length: 2\r\n\r\nok",'c') + " " + G('a'))
 c("KNOWN FINDING: `Upgrade: websocket` on a 200 response makes the decoder ignore Content-Length",
   "lim=1 " + R('a','g','f',"HTTP/1.1 200 OK\r\ncontent-length: 3\r\nupgrade: websocket\r\n\r\nabc",'k') + " " + G('a'))
 c("KNOWN FINDING: close among several Connection values is not honoured",
